@@ -284,7 +284,7 @@ class World:
     def apply_edit(self, op: dict) -> None:
         k = op["op"]
         if k == "write":
-            self.write(op["path"], op["text"])
+            self.write(op["path"], op["text"] * int(op.get("repeat", 1)))
         elif k == "rm":
             os.remove(self.abs(op["path"]))
         elif k == "mv":
